@@ -148,6 +148,8 @@ AXIS_SCENARIOS = {
 DEFASSIGN_EXCEPTIONS = {
     (T + "qtt_to_tens", "sig:=item | augMult"): "first-iteration initialisation idiom: `core` is None on loop entry and is reset to None "
                                    "whenever a core is emitted, so the assigning branch always runs before the reading one",
+    (T + "qtt_to_tens", "sig:=item"): "the same first-iteration idiom for a further quantity read off the first piece of a folded core (assigned in the "
+                                     "`core == None` branch, which runs before the reading one)",
     ("_decomposition.mat_to_tt", "sig:unpack[0/2]=call:to_tt"): "only unassigned when is_sparse is true; every call site passes no is_sparse "
                                          "argument (re-verified on each run)",
     ("_decomposition.mat_to_tt", "sig:unpack[1/2]=call:to_tt"): "same as ttv",
